@@ -722,7 +722,7 @@ SMALL_OBSERVERS = {
     "compute_neighborlist": lambda md, t, tmp: md.compute_neighborlist(t, 2.0),
     "compute_rdf": lambda md, t, tmp: md.compute_rdf(t, [[0, t.n_atoms - 1]], r_range=(0.0, 2.0)),
     "density": lambda md, t, tmp: md.density(t),
-    "shrake_rupley": lambda md, t, tmp: md.shrake_rupley(t),
+    "shrake_rupley": lambda md, t, tmp: _sasa_unless_coincident(md, t),
     "compute_drid": lambda md, t, tmp: md.compute_drid(t),
     "find_closest_contact": lambda md, t, tmp: md.find_closest_contact(t, [0], [t.n_atoms - 1]),
     "rmsd(atom_indices)": lambda md, t, tmp: md.rmsd(t, t, 0, atom_indices=np.arange(t.n_atoms)),
@@ -752,6 +752,19 @@ SMALL_OBSERVERS = {
 for _ext in ("h5", "pdb", "xtc", "trr", "dcd", "nc", "binpos", "mdcrd", "xyz", "lammpstrj", "gro", "rst7", "ncrst", "lh5",
              "pdb.gz", "dtr"):
     SMALL_OBSERVERS["save(." + _ext + ")"] = (lambda md, t, tmp, e=_ext: t.save(__import__("os").path.join(tmp, "obs." + e)))
+
+
+def _sasa_unless_coincident(md, t):
+    """sasa.cpp calls exit(1) when two atoms sit (virtually) on top of one another (r^2 < 1e-10 nm^2) -- e.g. after
+    t.stack(t) -- which would take the whole runner down with it; such a state is refused here like any other
+    refusal of an observer (refusing is not changing)."""
+    x = np.asarray(t.xyz, dtype=np.float64)
+    if x.shape[1] > 1:
+        d2 = ((x[:, :, None, :] - x[:, None, :, :]) ** 2).sum(-1)
+        d2[:, np.arange(x.shape[1]), np.arange(x.shape[1])] = 1.0
+        if d2.min() < 1e-8:
+            raise ValueError("coincident atoms: shrake_rupley would call exit()")
+    return md.shrake_rupley(t)
 
 
 def run_observer(md, t, name, tmp):
